@@ -104,7 +104,13 @@ def subChk (a b : Nat) : Except Fault Nat :=
 
 def emit (st : RState) (s : List Nat) : RState := { st with out := st.out ++ s }
 
-def decimal (n : Nat) : List Nat := (toString n).toList.map Char.toNat
+/-- decimal digits of `n`, most significant first, prepended to `acc` (fuel ≥ number of digits) -/
+def decimalF : Nat → Nat → List Nat → List Nat
+  | 0, _, acc => acc
+  | f + 1, n, acc => if n < 10 then (48 + n) :: acc else decimalF f (n / 10) ((48 + n % 10) :: acc)
+
+/-- `Digit::NumberToString` of an unsigned integer (plain decimal) -/
+def decimal (n : Nat) : List Nat := decimalF (n + 1) n []
 
 def signedDecimal (bits : Nat) : List Nat :=
   if bits < Qentem.Expr.H64 then decimal bits else 45 :: decimal (Qentem.Expr.W64 - bits)
@@ -169,6 +175,14 @@ def copyValue (cx : RCtx R) (esc : Bool) : Doc → Option (List Nat)
   | .null => some Qentem.Expr.nullStr
   | _ => none
 
+/-- the key of the loop item a loop-bound variable refers to (`tag.IDLength != 0`, non-empty key) -/
+def loopKeyText (st : RState) (v : VarRef) : Except Fault (Option (List Nat)) :=
+  if v.idLen = 0 then .ok none
+  else
+    match itemAt st v.level with
+    | .ok it => .ok (if it.key.length = 0 then none else some it.key)
+    | .error e => .error e
+
 def renderVariable (cx : RCtx R) (st : RState) (v : VarRef) (offset : Nat) : Except Fault (RState × Nat) := do
   let tOff ← subChk v.off W1.variablePrefixLength
   let len := v.len + W1.variableFullLength
@@ -178,10 +192,7 @@ def renderVariable (cx : RCtx R) (st : RState) (v : VarRef) (offset : Nat) : Exc
   match value.bind (copyValue cx true) with
   | some txt => .ok (emit st txt, offset)
   | none =>
-    let keyTxt ← (if v.idLen ≠ 0 then do
-        let it ← itemAt st v.level
-        pure (if it.key.length ≠ 0 then some it.key else none)
-      else pure none : Except Fault (Option (List Nat)))
+    let keyTxt ← loopKeyText st v
     match keyTxt with
     | some k => .ok (emit st (Qentem.Escape.escapeCfg cx.autoEscape k), offset)
     | none =>
